@@ -162,7 +162,7 @@ def o_history(texts):
     return None
 
 
-def o_template_call(text, kwargs, subst_text, shared=None):
+def o_template_call(text, kwargs, subst_text, shared=None, raw=False):
     """C04: loads(text)(**kwargs) equals loads(subst_text) in operations and variables; with `shared`
     the template object loaded earlier is instantiated again instead of a freshly loaded one"""
     if shared is not None:
@@ -171,7 +171,7 @@ def o_template_call(text, kwargs, subst_text, shared=None):
         ic, obj = _loads(text)
         if ic[0] != "prog":
             return "template is refused with %s: %r" % (ic[1:3], obj)
-    kw = {k: (np.array(v) if isinstance(v, list) else v) for k, v in kwargs.items()}
+    kw = dict(kwargs) if raw else {k: (np.array(v) if isinstance(v, list) else v) for k, v in kwargs.items()}
     with core.quiet():
         try:
             inst = obj(**kw)
@@ -251,7 +251,7 @@ def generic_replay(data):
     if k == "history":
         return o_history(data["texts"])
     if k == "template_call":
-        return o_template_call(data["text"], data["kwargs"], data["subst_text"])
+        return o_template_call(data["text"], data["kwargs"], data["subst_text"], raw=data.get("raw", False))
     if k == "model_oracle":
         return common.model_oracle(data["text"])
     if k == "include":
